@@ -23,6 +23,7 @@ type c13 struct {
 	regNames  map[string]bool
 	authMW    map[*ssa.Function]string // memo: "" = ok, otherwise reason
 	callersOf map[*ssa.Function][]ssa.CallInstruction
+	mwDepth   int
 }
 
 func checkC13(c *Ctx, r *Report) {
@@ -33,7 +34,7 @@ func checkC13(c *Ctx, r *Report) {
 	x := &c13{c: c, r: r, authMW: map[*ssa.Function]string{}}
 	r.rule("C13.O1", "every call of a gin registration method in the module has a receiver that traces to a protected group", 5)
 	r.rule("C13.O2", "every group reaching a registration is protected by a dominating Use(auth middleware), by Group(prefix, auth middleware) or by its parent", 3)
-	r.rule("C13.O3", "an auth middleware calls (*RouterAuthorizationCheck).Check with its own *gin.Context on every path, and never calls Next before", 3)
+	r.rule("C13.O3", "an auth middleware calls (*RouterAuthorizationCheck).Check with its own *gin.Context on every path, and never calls Next before", 1)
 	r.rule("C13.O4", "in Check, every path on the err != nil edge passes c.Abort() and a response with constant status 401", 2)
 	r.rule("C13.O5", "every implementation of NFContext.AuthorizationCheck returns nil only on the !OAuth2Required edge, otherwise the result of oauth.VerifyOAuth(token, ...)", 2)
 	r.rule("C13.O6", "the only HTTP serving calls in the module are on the server built by NewHttp2Server from the router newRouter returns; nothing serves the default mux", 2)
@@ -322,6 +323,31 @@ func (x *c13) isAuthMW(h ssa.Value) string {
 		f, _ = v.Fn.(*ssa.Function)
 	case *ssa.Function:
 		f = v
+	case *ssa.Call:
+		// a module function that builds the middleware: every value it can return must be one
+		sc := v.Call.StaticCallee()
+		if sc == nil || !x.c.inModule(sc) || len(sc.Blocks) == 0 {
+			return "handler is the result of a call that cannot be resolved to a module function"
+		}
+		if x.mwDepth > 2 {
+			return "middleware constructors nested too deeply"
+		}
+		x.mwDepth++
+		defer func() { x.mwDepth-- }()
+		n := 0
+		for _, ri := range returnsOf(sc) {
+			if len(ri.Vals) != 1 {
+				return "middleware constructor " + sc.Name() + " does not return exactly one value"
+			}
+			n++
+			if why := x.isAuthMW(ri.Vals[0]); why != "" {
+				return "middleware constructor " + sc.Name() + " can return (at " + posOf(x.c, ri.Ret) + ") a handler that is not an auth middleware: " + why
+			}
+		}
+		if n == 0 {
+			return "middleware constructor " + sc.Name() + " has no return"
+		}
+		return ""
 	}
 	if f == nil || f.Blocks == nil {
 		return "handler is not a function literal or named function of the module"
